@@ -79,7 +79,8 @@ extern bg_scratch_row_t bg_scratch_row;
 #define BG_IS_Q(x) ((x) != G_P && (x) == G_Q)
 #define BG_IS_O(x) ((x) != G_P && (x) != G_Q)
 typedef struct bg_it {
-  bg_cnt r;
+  bg_cnt r;   /* suffix: entries from the cursor to end()                        */
+  bg_cnt p;   /* ghost: entries passed by ++ since begin() (const traversals)   */
   VertexIndex cur;
   bg_size idx;
   bg_size bound;
@@ -145,7 +146,9 @@ typedef struct bg_adj {
 typedef struct {
   const struct bg_adj *a;
   bg_size F, below, belowUp;
-  bg_size rank; /* ghost: number of increments of the edge iterator the frontier follows */
+  bg_size belowInQ; /* entries equal to G_Q in the rows below F */
+  bg_size rank;  /* ghost: number of increments of the edge iterator the frontier follows */
+  bg_size rankQ; /* ghost: how many of the positions passed held G_Q */
 } bg_ghost_frontier_t;
 extern bg_ghost_frontier_t bg_ghost_frontier;
 #define BG_EQ_VLABEL(a, b) ((a).v == (b).v)
